@@ -45,6 +45,7 @@ type pos struct {
 	withheld  bool
 	forwarded bool
 	out       media.Sent
+	sidAfter  int // selected spatial layer right after the first transmission
 }
 
 type world struct {
@@ -213,6 +214,7 @@ func (w *world) deliver(p int64, tid int) *core.Violation {
 		o := out[0]
 		if first {
 			inf.forwarded, inf.out = true, o
+			inf.sidAfter = int(w.w.Down.Layer().Sid)
 		}
 		s := o.Header.SequenceNumber
 		if prev, ok := w.sent[s]; ok {
@@ -308,6 +310,11 @@ func (w *world) nack(s uint16) *core.Violation {
 			cls := "different-packet"
 			if w.srcOf[s] == p && prev.Header.Marker != o.Header.Marker {
 				cls = "marker-differs-after-layer-switch"
+				if inf.forwarded && inf.sidAfter == int(w.w.Down.Layer().Sid) {
+					// the selection is what it was when the packet was
+					// first sent: not the known recomputation defect
+					cls = "marker-differs-without-layer-switch"
+				}
 			}
 			return viol("nack-not-identical/"+cls, fmt.Sprintf("NACK for %d: retransmission is not identical to the original transmission: %s", s, what))
 		}
